@@ -343,8 +343,11 @@ def gen_cem(r, big):
     kind = r.choice(KINDS)
     mean = [r.choice([l + (h - l) / 2, l, h, l - 1, h + 1]) for l, h in zip(lo, hi)]
     steps = r.randint(1, 12 if big else 5)
+    mode = r.choice(["step", "step", "scan", "scan2", "scan2"])
+    if mode == "scan2":      # short legs and small populations: the second leg often does not beat the best of the first one
+        steps = r.choice([2, 2, 3, 4]); N = r.choice([4, 4, 8]); ne = min(ne, N)
     return dict(da=da, lo=lo, hi=hi, N=N, ne=ne, s=s, kind=kind, mean=mean, steps=steps, seed=r.randrange(2 ** 31),
-                mode=r.choice(["step", "step", "scan"]), custom_sd=r.random() < 0.3, hseed=r.randrange(2 ** 31))
+                mode=mode, custom_sd=r.random() < 0.3, hseed=r.randrange(2 ** 31))
 
 
 def run_cem(c):
@@ -365,6 +368,14 @@ def run_cem(c):
             st, ls = C.cem_step(hl.loss, solver, st, tr, sub)
             ret_losses.append(onp.asarray(ls))
             states.append(dict(mean=flat_of(st.mean), stdev=flat_of(st.stdev), best=flat_of(st.bestsofar), bl=float(st.bestsofar_loss)))
+    elif c["mode"] == "scan2":
+        # a search continued by a second cem() call from the state the first one returned (the best so far is carried in the state)
+        legs = [max(1, c["steps"] // 2), max(1, c["steps"] - c["steps"] // 2)]
+        for leg in legs:
+            key, sub = jax.random.split(key)
+            st, ls = C.cem(hl.loss, solver, st, tr, max_steps=leg, rng=sub, verbose=False)
+            ret_losses += list(onp.asarray(ls))
+            states.append(dict(mean=flat_of(st.mean), stdev=flat_of(st.stdev), best=flat_of(st.bestsofar), bl=float(st.bestsofar_loss), legsteps=leg))
     else:
         st, ls = C.cem(hl.loss, solver, st, tr, max_steps=c["steps"], rng=key, verbose=False)
         ret_losses = list(onp.asarray(ls))
@@ -507,8 +518,9 @@ def run(chk, replay=None):
             chk.case(("cem", repr(c)), feats, dict(kind="cem", N=c["N"], elites=c["ne"], smoothing=c["s"], loss=c["kind"], steps=c["steps"],
                                                   mode=c["mode"], first_losses=[repr(float(v)) for v in calls[0][1][:8]] if calls else []))
             chk.traces_impl += 1
-            if len(calls) != c["steps"]:
-                chk.broke("cem-host-loss-call-count", f"{len(calls)} populations seen for {c['steps']} steps"); continue
+            nsteps = c["steps"] if c["mode"] != "scan2" else max(1, c["steps"] // 2) + max(1, c["steps"] - c["steps"] // 2)
+            if len(calls) != nsteps:
+                chk.broke("cem-host-loss-call-count", f"{len(calls)} populations seen for {nsteps} steps"); continue
             for (X, L), rl in zip(calls, ret):
                 if not onp.array_equal(L, onp.asarray(rl), equal_nan=True):
                     chk.violation("cem-returned-losses-differ", "the losses returned by cem/cem_step are not the evaluated ones", case)
@@ -525,6 +537,12 @@ def run(chk, replay=None):
                               st=dict(mean=[F(v) for v in s0["mean"]], stdev=[F(v) for v in s0["stdev"]], best=[F(v) for v in s0["best"]],
                                       best_loss=s0["bl"]))
                     upd_jobs.append((case, i, uc, s1))
+            elif c["mode"] == "scan2":
+                iters = []; data = []; off = 0
+                for s1 in states[1:]:
+                    seg = calls[off:off + s1["legsteps"]]; off += s1["legsteps"]
+                    X2 = onp.concatenate([X for X, _ in seg]); L2 = onp.concatenate([L for _, L in seg])
+                    iters.append(iter_term(X2, L2, s1["best"], s1["bl"])); data.append((X2, L2, s1["best"], s1["bl"]))
             else:
                 allX = onp.concatenate([X for X, _ in calls]); allL = onp.concatenate([L for _, L in calls])
                 iters = [iter_term(allX, allL, states[-1]["best"], states[-1]["bl"])]
@@ -570,6 +588,12 @@ def run(chk, replay=None):
             if c["mode"] == "step":
                 iters = [iter_term(X, L, s1["best"], s1["bl"]) for (X, L), s1 in zip(calls, states[1:])]
                 data = [(X, L, s1["best"], s1["bl"]) for (X, L), s1 in zip(calls, states[1:])]
+            elif c["mode"] == "scan2":
+                iters = []; data = []; off = 0
+                for s1 in states[1:]:
+                    seg = calls[off:off + s1["legsteps"]]; off += s1["legsteps"]
+                    X2 = onp.concatenate([X for X, _ in seg]); L2 = onp.concatenate([L for _, L in seg])
+                    iters.append(iter_term(X2, L2, s1["best"], s1["bl"])); data.append((X2, L2, s1["best"], s1["bl"]))
             else:
                 allX = onp.concatenate([X for X, _ in calls]); allL = onp.concatenate([L for _, L in calls])
                 iters = [iter_term(allX, allL, states[-1]["best"], states[-1]["bl"])]
